@@ -450,7 +450,11 @@ func gen(r *rng.R, tier string) fw.Case {
 	if inDomain(g) {
 		tags = append(tags, "monitored")
 	}
-	if r.Chance(1, 8) && e2eOK(g, o) {
+	e2eDen := 8 // quick: ~300 end-to-end Sets; thorough: ~2000 of 120000 cases
+	if tier == "thorough" {
+		e2eDen = 50
+	}
+	if r.Chance(1, e2eDen) && e2eOK(g, o) {
 		extra = append(extra, e2eLine(g, o))
 		tags = append(tags, "end-to-end")
 	}
